@@ -24,8 +24,8 @@ ANCHOR_FILES = ["src/ropt/optimization/_optimizer.py", "src/ropt/ensemble_evalua
 RULE = ("case = (mode, V, mask, method/script, options); non-trivial if the mask fixes at least one variable and at least one evaluator row was checked; distinct key = case; "
         "monitor_counters: rows/entries checked, gradient entries checked, nested hand-offs")
 ASSUMPTIONS = ["initial values inside the bounds", "nested cases use no variable transform (domain convention of the hand-off is user code)"]
-REQUIRED = {"quick": {"evaluator_rows_checked": 20000, "fixed_entries_checked": 30000, "gradient_fixed_entries_checked": 2000, "result_vectors_checked": 5000, "algorithm_vectors_checked": 3000, "nested_handoffs": 150, "nested_rows_after_handoff": 1000, "explicit_start_vector": 100, "gradients_with_all_realizations_failed": 25, "step_reruns_without_the_nested_plan": 40, "__nontrivial__": 300},
-            "thorough": {"evaluator_rows_checked": 315045, "fixed_entries_checked": 523595, "gradient_fixed_entries_checked": 60000, "result_vectors_checked": 150000, "algorithm_vectors_checked": 100000, "nested_handoffs": 5000, "nested_rows_after_handoff": 28068, "explicit_start_vector": 903, "gradients_with_all_realizations_failed": 400, "step_reruns_without_the_nested_plan": 800, "__nontrivial__": 4000}}
+REQUIRED = {"quick": {"evaluator_rows_checked": 20000, "fixed_entries_checked": 30000, "gradient_fixed_entries_checked": 2000, "result_vectors_checked": 5000, "algorithm_vectors_checked": 3000, "nested_handoffs": 150, "nested_rows_after_handoff": 1000, "explicit_start_vector": 100, "gradients_with_all_realizations_failed": 25, "step_reruns_without_the_nested_plan": 40, "with_relative_perturbations": 50, "__nontrivial__": 300},
+            "thorough": {"evaluator_rows_checked": 315045, "fixed_entries_checked": 523595, "gradient_fixed_entries_checked": 60000, "result_vectors_checked": 150000, "algorithm_vectors_checked": 100000, "nested_handoffs": 5000, "nested_rows_after_handoff": 28068, "explicit_start_vector": 903, "gradients_with_all_realizations_failed": 400, "step_reruns_without_the_nested_plan": 800, "with_relative_perturbations": 400, "__nontrivial__": 4000}}
 BOUNDS = {"quick": {"Vmax": 4}, "thorough": {"Vmax": 5}}
 METHODS = ["scripted", "slsqp", "l-bfgs-b", "nelder-mead", "powell", "de", "de_vec"]
 
@@ -86,7 +86,7 @@ class Monitor:
         return self.ev(variables, context)
 
 
-def _gen_spec(rng, V, mask, method):
+def _gen_spec(rng, V, mask, method, refusable=False):
     R, P = int(rng.integers(1, 4)), int(rng.integers(1, 4))
     n_con = int(rng.integers(0, 2)) if method in ("scripted", "slsqp", "de") else 0
     F = 1 + n_con
@@ -102,6 +102,20 @@ def _gen_spec(rng, V, mask, method):
         spec["lb"] = (x0 - rng.uniform(0.0, 0.6, size=V)).tolist()
         spec["ub"] = (x0 + rng.uniform(0.05, 0.6, size=V)).tolist()
         spec["btypes"] = [int(t) for t in rng.integers(1, 4, size=V)]
+        if rng.random() < 0.3:
+            # magnitudes relative to the bound range, for some or all variables
+            spec["ptypes"] = [2] * V if rng.random() < 0.5 else [int(t) for t in rng.integers(1, 3, size=V)]
+            fixed_rel = [v for v in range(V) if not mask[v] and spec["ptypes"][v] == 2]
+            if refusable and fixed_rel and method not in ("de", "de_vec") and rng.random() < 0.7:
+                # ... and a fixed variable without a finite range: ropt refuses such a configuration; whatever accepts it must
+                # still not move the fixed variable
+                v = fixed_rel[int(rng.integers(len(fixed_rel)))]
+                side = int(rng.integers(3))
+                if side != 0:
+                    spec["lb"][v] = -np.inf
+                if side != 1:
+                    spec["ub"][v] = np.inf
+                spec["may_be_refused"] = True
     ns = int(rng.choice([1, 2, 3], p=[0.5, 0.35, 0.15]))
     meths = ["norm", "uniform", "sobol", "lhs", "halton", "truncnorm"]
     spec["samplers"] = [{"method": str(rng.choice(meths)), "shared": bool(rng.random() < 0.4)} for _ in range(ns)]
@@ -163,7 +177,7 @@ def run_case(case, obs):
 
     V, mask, method = case["V"], np.array(case["mask"], dtype=bool), case["method"]
     rng = rng_for(obs.seed, "c09", V, case["mask"], method, case["rep"])
-    spec = _gen_spec(rng, V, case["mask"], method)
+    spec = _gen_spec(rng, V, case["mask"], method, refusable=True)
     tspec = None
     if rng.random() < 0.35:
         tspec = {"vscale": rng.uniform(0.3, 4.0, size=V).tolist(), "voffset": rng.normal(size=V).tolist() if rng.random() < 0.5 else None}
@@ -251,11 +265,20 @@ def run_case(case, obs):
                         obs.violation("algorithm_jacobian_length", shape=list(J.shape), nfree=nfree)
         return None
 
+    if spec.get("ptypes"):
+        obs.count("with_relative_perturbations")
     with scipy_hook.active(handler) as hook:
-        if start is not None:
-            plan.run_step(step, config=cfgd, transforms=transforms, variables=start)
-        else:
-            plan.run_step(step, config=cfgd, transforms=transforms)
+        try:
+            if start is not None:
+                plan.run_step(step, config=cfgd, transforms=transforms, variables=start)
+            else:
+                plan.run_step(step, config=cfgd, transforms=transforms)
+        except ValueError as exc:
+            if not (spec.get("may_be_refused") and "must be finite" in str(exc) and not ev.calls):
+                raise
+            obs.count("configuration_refused_before_any_evaluation")
+            obs.feature("refused")
+            return
     if hook.entered < 1:
         obs.count("interceptor_not_entered")
     if (~mask).any() and ev.calls:
